@@ -222,8 +222,9 @@ def main(tier, replay=None):
         "disagreements_checked": nstages + 2 * len(cases),
         "correspondence_mismatches": len(corr),
     })
-    c.assumptions = ["cases whose path m/44'/coin'/1' meets a parent scalar with a leading zero byte are compared across instances only (recorded finding C14 short-parent-hardened-child)",
-                     "no address of the wallets is used on chain (the import's discovery of used addresses is C12)",
+    c.assumptions = ["cases whose path m/44'/coin'/1' meets a parent scalar with a leading zero byte are compared across instances only (recorded finding C14 short-parent-hardened-child); "
+                     "cases = 7 mod 16 are such wallets on purpose (entropies drawn until one is), and the addresses their restore-with-discovery stage pays are read off a throwaway instance of the implementation, not off the reference",
+                     "the only on-chain use of the wallets' addresses is the payments beyond the index hints made before the mnemonic restore (the gap rule itself is C12)",
                      "scrypt N lowered to 16 by the harness"]
     if not proofs_ok and not c.violations and not brk:
         brk = "proof obligations of Properties/C04.v no longer check: " + str(c.proof_break)
